@@ -5,10 +5,12 @@ import (
 	"database/sql"
 	"errors"
 	"fmt"
+	"sort"
 
 	"ariga.io/atlas/sql/migrate"
 	"ariga.io/atlas/sql/postgres"
 	"ariga.io/atlas/sql/schema"
+	"verifharness/internal/hx"
 )
 
 // pgIdentRRW: an empty revision store that lives at a given place of the database.
@@ -23,7 +25,7 @@ func (r pgIdentRRW) Ident() *migrate.TableIdent { return &r.id }
 // the REAL driver on the in-memory stand-in: with no recorded revision `Executor.Pending` runs on a database
 // only if it is clean - nothing in it but the empty default schema and the revision table itself, wherever
 // that table lives. Grid: content of public x a second schema x the place of the revision table.
-func c11PGClean(e *Env) {
+func c11PGClean(e *Env, pool *hx.Pool) {
 	ctx := context.Background()
 	type db struct {
 		name  string
@@ -78,6 +80,29 @@ func c11PGClean(e *Env) {
 					default:
 						clean = false
 					}
+				}
+				// the Lean model of the gate (Atlas.Clean, characterised by Props.C11.gate_postgres) on the same state
+				var mschemas []map[string]any
+				var snames []string
+				for s := range perSchema {
+					snames = append(snames, s)
+				}
+				sort.Strings(snames)
+				for _, s := range snames {
+					ts := append([]string{}, perSchema[s]...)
+					sort.Strings(ts)
+					mschemas = append(mschemas, map[string]any{"name": s, "tables": ts})
+				}
+				var mans struct {
+					Clean bool `json:"clean"`
+				}
+				if err := pool.AskInto(map[string]any{"op": "clean.check", "dialect": "postgres", "schemas": mschemas, "rev_schema": rt.Schema, "rev_table": rt.Name}, &mans); err != nil {
+					e.Res.Violate("no-failing-input-found", "model-error", err.Error(), "model", nil)
+					return
+				}
+				if mans.Clean != clean {
+					e.Res.Disagree()
+					e.Res.Violate("no-failing-input-found", "corr-clean-model-mismatch", fmt.Sprintf("postgres %v: the Lean gate says clean=%v, the harness oracle %v", mschemas, mans.Clean, clean), "correspondence Atlas.Clean", nil)
 				}
 				id := fmt.Sprintf("pg first run: %s; revision table %s.%s present=%v", d.name, rt.Schema, rt.Name, withRev)
 				rep := map[string]any{"case": id, "setup": d.setup}
